@@ -332,6 +332,16 @@ func (p *PX) term(v ssa.Value, fr *pxFrame, st *pxState) *Term {
 					return &Term{K: TLeaf, V: v, T: v.Type(), key: "<*" + strings.TrimSuffix(cell, "*") + ">"}
 				}
 			}
+			// a local array of structs only accessed by constant index (pxlocalarray.go):
+			// the whole array as an aggregate of what was stored, or one field of an element
+			if al, ok := x.X.(*ssa.Alloc); ok {
+				if t := p.localArrayValue(al, fr, st); t != nil {
+					return t
+				}
+			}
+			if t := p.localArrayFieldLoad(x.X, fr, st); t != nil {
+				return t
+			}
 			// load of a local variable: the value last stored on this path
 			if al, ok := x.X.(*ssa.Alloc); ok {
 				if t, ok := st.vals[p.reg(fr, al)+"*"]; ok {
@@ -447,7 +457,7 @@ func (p *PX) term(v ssa.Value, fr *pxFrame, st *pxState) *Term {
 			return p.term(x.X, fr, st)
 		}
 	case *ssa.Index:
-		if a := p.term(x.X, fr, st); (a.K == TPure && a.Name == "roval") || a.CV != nil {
+		if a := p.term(x.X, fr, st); (a.K == TPure && (a.Name == "roval" || a.Name == "array")) || a.CV != nil {
 			if i := p.term(x.Index, fr, st); i.K == TConst && i.C.IsInt64() {
 				if t := p.componentOf(a, int(i.C.Int64()), fr, st); t != nil {
 					return t
@@ -531,6 +541,14 @@ func (p *PX) term(v ssa.Value, fr *pxFrame, st *pxState) *Term {
 				}
 			}
 		}
+		// a call through a method value of a library method (`size := vv.Len` … `size()`)
+		// is the call of the method on the bound receiver (pxmethodval.go)
+		var boundRecv *Term
+		if name == "" {
+			if m, recv := p.boundLibMethod(x, fr, st); m != nil {
+				name, boundRecv = qualifiedFnName(m), recv
+			}
+		}
 		if pureMethods[name] || p.extraPure[name] {
 			var args []*Term
 			var keys []string
@@ -538,6 +556,10 @@ func (p *PX) term(v ssa.Value, fr *pxFrame, st *pxState) *Term {
 				a := p.term(c.Value, fr, st)
 				args = append(args, a)
 				keys = append(keys, a.key)
+			}
+			if boundRecv != nil {
+				args = append(args, boundRecv)
+				keys = append(keys, boundRecv.key)
 			}
 			for _, a := range c.Args {
 				ta := p.term(a, fr, st)
@@ -721,6 +743,7 @@ func (p *PX) instrs(fr *pxFrame, b *ssa.BasicBlock, from int, st *pxState, k pxC
 			cell := p.reg(fr, x) + "*"
 			delete(st.vals, cell)
 			delete(st.bseq, cell)
+			p.localArrayReset(x, fr, st)
 			if pt, ok := x.Type().Underlying().(*types.Pointer); ok {
 				if z := zeroOf(pt.Elem()); z != nil {
 					st.vals[cell] = z
@@ -806,6 +829,7 @@ func (p *PX) instrs(fr *pxFrame, b *ssa.BasicBlock, from int, st *pxState, k pxC
 				}
 			}
 			p.byteStore(x, fr, st)
+			p.localArrayStore(x, fr, st) // &localArray[i].field (pxlocalarray.go)
 		case *ssa.MapUpdate:
 			// remembered for rules about tables kept in struct fields (numbering)
 			if ld, ok := x.Map.(*ssa.UnOp); ok {
